@@ -80,9 +80,10 @@ def directory_of(world):
 
 
 class DiscSpec(netx.Spec):
-    def __init__(self, agents, comps, max_ops, with_unreg_agent=False):
+    def __init__(self, agents, comps, max_ops, with_unreg_agent=False, only=None):
         self.agents, self.cnames, self.max_ops = agents, comps, max_ops
         self.with_unreg_agent = with_unreg_agent
+        self.only = only  # optional restriction of the operation kinds (keeps the 3-agent plan small)
 
     def canon_extra(self, world):
         m = world.mon
@@ -116,7 +117,7 @@ class DiscSpec(netx.Spec):
                 for kind in ("C", "R"):
                     if (x, kind, c) in [tuple(s) for s in ref["subs"]]:
                         evs.append(("op", x, "unsub" + kind, c))
-                    elif kind == "C" or self._knows(world, x, c):
+                    elif kind == "C" or self._knows(world, x, c) or (x, "C", c) in [tuple(s_) for s_ in ref["subs"]]:
                         # replicas can only be recorded for a computation the agent knows: subscribing to the replicas of a
                         # computation presupposes knowing it (as ResilientAgent / UCSReplication do)
                         evs.append(("op", x, "sub" + kind, c))
@@ -128,6 +129,8 @@ class DiscSpec(netx.Spec):
                         evs.append(("op", x, "subA", y))
             if self.with_unreg_agent and not any(h == x for h in ref["hosted"].values()) and not any(r[1] == x for r in ref["replicas"]):
                 evs.append(("op", x, "unregA", x))
+        if self.only is not None:
+            evs = [e for e in evs if e[2] in self.only]
         return evs
 
     def _knows(self, world, x, c):
@@ -279,15 +282,15 @@ class DiscSpec(netx.Spec):
                     return
 
 
-def explore(agents, comps, max_ops, first_ops, part, with_unreg_agent=False):
+def explore(agents, comps, max_ops, first_ops, part, with_unreg_agent=False, only=None):
     world = build(agents, preregistered=not with_unreg_agent)
-    sp = DiscSpec(agents, comps, max_ops, with_unreg_agent)
+    sp = DiscSpec(agents, comps, max_ops, with_unreg_agent, only)
     ex = netx.Explorer(sp, shared=[], max_states=1500000)
     # the search is sharded by the first operation: only events equal to `first` are taken in the initial state
     ex.first_filter = first_ops
 
     def report(key, what, w, hist):
-        part.violation(key, what, {"agents": agents, "comps": comps, "max_ops": max_ops, "with_unreg_agent": with_unreg_agent, "history": netx.unroll(hist)})
+        part.violation(key, what, {"agents": agents, "comps": comps, "max_ops": max_ops, "with_unreg_agent": with_unreg_agent, "only": only, "history": netx.unroll(hist)})
 
     st = ex.run(world, report)
     for k in ("states", "transitions", "traces", "revisits"):
@@ -304,15 +307,15 @@ def explore(agents, comps, max_ops, first_ops, part, with_unreg_agent=False):
 
 
 def shard(args):
-    agents, comps, max_ops, first, unreg = args
+    agents, comps, max_ops, first, unreg, only = args
     part = Part()
-    explore(agents, comps, max_ops, first, part, unreg)
+    explore(agents, comps, max_ops, first, part, unreg, only)
     return part
 
 
-def first_events(agents, comps, unreg):
+def first_events(agents, comps, unreg, only=None):
     world = build(agents, preregistered=not unreg)
-    sp = DiscSpec(agents, comps, 99, unreg)
+    sp = DiscSpec(agents, comps, 99, unreg, only)
     world.mon["_spec"] = sp
     return [list(e) for e in netx.enabled_events(world, sp)]
 
@@ -320,13 +323,14 @@ def first_events(agents, comps, unreg):
 def run(ctx):
     ctx.level = "model_checking"
     if ctx.quick:
-        plans = [(AGENTS2, ["c1"], 5, False), (AGENTS2, ["c1"], 4, True)]
+        plans = [(AGENTS2, ["c1"], 5, False, None), (AGENTS2, ["c1"], 4, True, None), (AGENTS3, ["c1"], 6, False, ["subC", "subR", "regC", "regR"])]
     else:
-        plans = [(AGENTS2, ["c1"], 7, True), (AGENTS2, ["c1", "c2"], 5, False), (AGENTS3, ["c1"], 5, False)]
+        plans = [(AGENTS2, ["c1"], 7, True, None), (AGENTS2, ["c1", "c2"], 5, False, None), (AGENTS3, ["c1"], 5, False, None),
+                 (AGENTS3, ["c1"], 7, False, ["subC", "subR", "regC", "regR", "unregR", "unregC"])]
     items = []
-    for agents, comps, n, unreg in plans:
-        for f in first_events(agents, comps, unreg):
-            items.append((agents, comps, n, f, unreg))
+    for agents, comps, n, unreg, only in plans:
+        for f in first_events(agents, comps, unreg, only):
+            items.append((agents, comps, n, f, unreg, only))
     ctx.rule = (
         "explicit-state search over real Directory / DirectoryComputation / Discovery / DiscoveryComputation objects on a virtual per-channel-FIFO "
         f"network: plans (agents, computations, max operations, agent un-registration allowed) = {plans}; operations per agent: register agent, "
